@@ -133,12 +133,12 @@ Proof.
   - destruct (step s _) as [s1| | |] eqn:E; try discriminate. apply IH. exact (Hstep _ _ _ Hs E).
 Qed.
 
-Lemma ps_walk_J rd ptr isz : forall fuel st st', ps_J st -> s_cur st = [] ->
-  ps_walk fuel rd ptr isz st = POk st' -> ps_J st' /\ s_cur st' = [].
+Lemma ps_walk_J fixed rd ptr isz : forall fuel st st', ps_J st -> s_cur st = [] ->
+  ps_walk fixed fuel rd ptr isz st = POk st' -> ps_J st' /\ s_cur st' = [].
 Proof.
   induction fuel as [|f IH]; intros st st' J Hc; [discriminate|]. cbn [ps_walk].
   destruct (s_queue st) as [|[ext len] q]; [intros H; injection H as <-; split; assumption|].
-  destruct (ps_mem ext (s_seen st)); [discriminate|].
+  destruct (ps_enter fixed isz (s_seen st) ext len) as [w|sn]; [discriminate|].
   destruct (rd ext len) as [data|]; [|discriminate].
   destruct (ps_scan _ _ data 0 len _) as [[st2 l2]| | |] eqn:Es; try discriminate.
   apply IH; [|reflexivity].
@@ -163,10 +163,10 @@ Theorem parse_shares_inodes_iff_same_extent fuel img ptr isz re rl g :
   (p_ino c1 = p_ino c2 <->
    data_len (p_rec c1) <> 0 /\ data_len (p_rec c2) <> 0 /\ extent (p_rec c1) = extent (p_rec c2)).
 Proof.
-  unfold parse, ps_parse. destruct ptr as [|e0 pt]; [discriminate|].
-  destruct (ps_walk fuel (ms_img_read img) (e0 :: pt) isz (ps_init re rl)) as [st| | |] eqn:Ew; try discriminate.
+  unfold parse, ps_parse, ps_parse_gen. destruct ptr as [|e0 pt]; [discriminate|].
+  destruct (ps_walk true fuel (ms_img_read img) (e0 :: pt) isz (ps_init re rl)) as [st| | |] eqn:Ew; try discriminate.
   intros H. injection H as <-. intros l1 c1 l2 c2 l3 EK Hd1 Hd2.
-  destruct (ps_walk_J (ms_img_read img) (e0 :: pt) isz fuel (ps_init re rl) st ps_G_init eq_refl Ew) as [J Hc].
+  destruct (ps_walk_J true (ms_img_read img) (e0 :: pt) isz fuel (ps_init re rl) st ps_G_init eq_refl Ew) as [J Hc].
   unfold ps_J, ps_keys in J. rewrite Hc in J. cbn [map] in J. rewrite app_nil_r in J.
   unfold ps_all_recs in EK. cbn [g_dirs ps_graph g_inodes] in *.
   apply (ps_G_share _ _ _ (map ps_key l1) (p_rec c1) (p_ino c1) (map ps_key l2) (p_rec c2) (p_ino c2)
